@@ -174,6 +174,15 @@ def run_job(job):
         signal.alarm(0)
 
 
+def _selects_lines(fix_only):
+    """a --fix_only document that restricts some rule to line numbers (anything but "all")"""
+    try:
+        sel = fix_only.get("fix", {}).get("rule", {})
+    except AttributeError:
+        return False
+    return any(any(x != "all" for x in v) for v in sel.values())
+
+
 def run_job_inner(job):
     """returns dict: failures (list), stats"""
     import vsgrun
@@ -229,8 +238,10 @@ def run_job_inner(job):
             r._get_tokens_of_interest = mk()
 
     def on_step(st):
-        if "idem" in feats and st.kind == "fix" and st.changed and st.exc is None:
-            # C10: the same rule, immediately again, on a deep copy of the model
+        if "idem" in feats and st.kind == "fix" and st.changed and st.exc is None and not _selects_lines(job.get("fix_only")):
+            # C10: the same rule, immediately again, on a deep copy of the model.  Not under a --fix_only file that
+            # lists LINES: the first fix then repairs the listed lines only, and a structural fix shifts the
+            # remaining violations onto listed line numbers, so "nothing left to fix" is not what C10 promises there
             try:
                 rule = next(r for r in rl.rules if r.unique_id == st.rule)
             except StopIteration:
